@@ -122,15 +122,15 @@ class ShapelyPolygon(Domain):
         n = self._compute_number_of_points(n, d, params)
         points = self._create_points_in_bounding_box(n, device)
         points = self._delete_outside(points)
+        scaled_n = n
+        while len(points) > n:
+            # too many grid points fell into the polygon: use a coarser grid
+            scaled_n = int(scaled_n * n / len(points))
+            points = self._create_points_in_bounding_box(scaled_n, device)
+            points = self._delete_outside(points)
         if not d:
             # if a number of points if specified we have to make sure
             # to sample the right amount of points
-            scaled_n = n
-            while len(points) > n:
-                # too many grid points fell into the polygon: use a coarser grid
-                scaled_n = int(scaled_n * n / len(points))
-                points = self._create_points_in_bounding_box(scaled_n, device)
-                points = self._delete_outside(points)
             points = self._grid_enough_points(n, points, device)
         return Points(points, self.space)
 
